@@ -78,6 +78,9 @@ type Msg struct {
 type half struct {
 	q       []Msg
 	netDown bool // the writer's end of the underlying connection is gone
+	// cap > 0: the socket buffers between writer and reader hold this many messages; a write beyond
+	// that waits for the reader (TCP back-pressure), or for the writer's deadline
+	cap int
 }
 
 // Conn mirrors websocket.Conn.
@@ -96,7 +99,19 @@ type Conn struct {
 	wguard    byte
 	rguard    byte
 	readLimit int64
+	// write deadline (virtual clock) and the sticky error of a write that ran into it
+	writeDeadline time.Time
+	writeErr      error
 }
+
+// SetWriteCap bounds the messages written on this end that its peer has not read yet.
+func (c *Conn) SetWriteCap(n int) { c.out.cap = n }
+
+type timeoutErr struct{ name string }
+
+func (e *timeoutErr) Error() string   { return "write " + e.name + ": i/o timeout" }
+func (e *timeoutErr) Timeout() bool   { return true }
+func (e *timeoutErr) Temporary() bool { return true }
 
 // Pair returns two connected ends.
 func Pair(a, b string) (*Conn, *Conn) {
@@ -143,6 +158,10 @@ func (c *Conn) ReadMessage() (int, []byte, error) {
 		}
 		m := c.in.q[0]
 		c.in.q = c.in.q[1:]
+		if c.in.cap > 0 {
+			// room for a writer held back by back-pressure
+			vs.Event("ws.read", unsafe.Pointer(c.in), false, true)
+		}
 		switch m.Type {
 		case CloseMessage:
 			code, text := CloseNoStatusReceived, ""
@@ -194,6 +213,35 @@ func (c *Conn) WriteMessage(messageType int, data []byte) error {
 	}
 	if c.peer.closed {
 		return fmt.Errorf("write %s: broken pipe", c.Name)
+	}
+	if c.writeErr != nil {
+		// gorilla: a failed write poisons the connection for writing
+		return c.writeErr
+	}
+	if c.out.cap > 0 && len(c.out.q) >= c.out.cap {
+		expired := false
+		cancel := func() bool { return false }
+		if !c.writeDeadline.IsZero() {
+			cancel = vs.S.AddTimer(c.writeDeadline.Sub(vs.Epoch.Add(vs.S.Now())), "ws write deadline "+c.Name, func() { expired = true })
+		}
+		vs.Wait("ws.Write(peer is not reading) "+c.Name, unsafe.Pointer(c.out), func() bool {
+			return len(c.out.q) < c.out.cap || c.closed || c.peer.closed || expired
+		})
+		cancel()
+		if vs.Aborting() {
+			return errors.New("aborted")
+		}
+		if c.closed {
+			return fmt.Errorf("write %s: use of closed network connection", c.Name)
+		}
+		if c.peer.closed {
+			return fmt.Errorf("write %s: broken pipe", c.Name)
+		}
+		if len(c.out.q) >= c.out.cap {
+			// part of the frame may be on the wire: nothing more can be written on this connection
+			c.writeErr = &timeoutErr{c.Name}
+			return c.writeErr
+		}
 	}
 	d := append([]byte{}, data...)
 	if messageType == CloseMessage {
@@ -251,6 +299,7 @@ func (c *Conn) SetWriteDeadline(t time.Time) error {
 	if c.native != nil {
 		return c.native.SetWriteDeadline(t)
 	}
+	c.writeDeadline = t
 	return nil
 }
 func (c *Conn) SetReadLimit(l int64) {
